@@ -11,6 +11,7 @@ import tempfam
 import tevalfam
 import interpfam
 import provfam
+import typefam
 from vlib import InfraError
 
 CHECKS = {}
@@ -29,6 +30,8 @@ def replay(ctx, path):
     fam = obj.get("replay_family", "eval")
     if fam == "eval":
         return evalfam.replay(ctx, obj)
+    if fam == "types":
+        return typefam.replay(ctx, obj)
     if fam == "prov":
         return provfam.replay(ctx, obj)
     if fam == "interp":
@@ -116,3 +119,8 @@ def c16(ctx):
 @register("C15")
 def c15(ctx):
     return provfam.check_c15(ctx)
+
+
+@register("C12")
+def c12(ctx):
+    return typefam.check_c12(ctx)
